@@ -54,11 +54,11 @@ Done(inst, s) == s.done
 \* `available[..., 0] = (current_node != 0) & (td["agent_idx"] < num_agents - 1)` -- the OLD agent_idx
 DepotOpen(inst, s, a) == a # 0 /\ s.agent < inst.m - 1
 
-\* QUIRK (MTSPEnv._step "Update the current length"): dist(cur, prev) is added on EVERY step, also
-\* on the steps taken after the episode finished.  The finishing step has already added the
-\* return leg dist(c, 0) and left current_length un-reset (the action was a customer), so the
-\* first post-finish depot step adds dist(0, c) once more and can raise max_subtour_length.
-LenAfter(inst, s, a, dn) == s.clen + Dist(inst.D, a, s.cur) + (IF dn THEN Dist(inst.D, a, 0) ELSE 0)
+\* MTSPEnv._step "Update the current length": dist(cur, prev) is added on every step of a RUNNING
+\* episode (since the fix "mTSP does not accumulate tour length on post-finish padding steps"; before,
+\* the first post-finish depot step re-added the return leg and could raise max_subtour_length).
+LenAfter(inst, s, a, dn) == s.clen + (IF s.done THEN 0 ELSE Dist(inst.D, a, s.cur))
+                                   + (IF dn THEN Dist(inst.D, a, 0) ELSE 0)
 
 Step(inst, s, a) ==
   LET left == (s.mask \ {a}) \ {0}
@@ -72,11 +72,9 @@ Step(inst, s, a) ==
       i     |-> s.i + 1,
       done  |-> dn]
 
-\* QUIRK (MTSPEnv._get_reward, cost_type "sum"): "same as TSP" -- the closed cycle through the
-\* ACTIONS (no depot in front), gathered with expand_as(locs), which raises unless the number of
-\* actions equals the number of nodes N+1.  Crash = the sentinel the adapter logs.
-CrashReward == 999999999
-SumRewardAsTSP(inst, hist) == IF Len(hist) = inst.N + 1 THEN 0 - CycleLen(inst.D, hist) ELSE CrashReward
+\* MTSPEnv._get_reward, cost_type "sum": the closed cycle depot -> actions -> depot (since the fix
+\* "mTSP sum-cost reward is the closed tour from the depot through all actions").
+SumRewardAsTSP(inst, hist) == 0 - CycleLen(inst.D, <<0>> \o hist)
 
 RewardM(inst, s, hist) == IF inst.variant = "minmax" THEN 0 - s.mlen ELSE SumRewardAsTSP(inst, hist)
 
